@@ -21,6 +21,14 @@ rebuilt with `from_edgelist`) and compared with the model; the laws of the state
 icontract class invariants on `EnforcedForest` are evaluated before/after every public call:
 `(p,c) in edge_data <=> parents[c] == p` and `memoised _hash == recomputed hash`.
 
+Round 4 classes (each history can be executed under them, see run_history): frame NAMES other than
+strings - integers / tuples several of which have the same builtin hash, names of different type with
+the same text; a graph built with `repair_rigid=None` (no repair window: every answer is the plain
+product, also on its copies); edges that are exact similarities with an intended scale next to one
+(inside the window in which get() repairs an answer; the answers must still agree with each other),
+incl. a chain of 64 of them; updates that name an ancestor of the parent frame - or the frame itself -
+as the child (refused, or resolved into a forest which the model adopts; never a loop).
+
 What the statement leaves open is not judged: the matrix of an existing edge after an update
 that carries no transform keyword (kept or reset to identity: the model adopts whichever the
 graph did), whether `to_flattened` raises or skips when some frame is not connected to the
@@ -46,7 +54,13 @@ RULE = (
     "queried graph, snapshot + restore, explicit queries incl. queries for absent frames) over <= 6 "
     "frame names; every history of length <= 3 over a 27-operation alphabet and over a 10-operation "
     "edge-list-loading alphabet (also from three initial forests, caches warm or cold) is enumerated, longer ones "
-    "(to 8 quick / 12 thorough) are sampled; a full observation (all ordered pairs, listings, edge-list "
+    "(to 8 quick / 12 thorough) are sampled; round 4: a 9-operation alphabet under three further classes of frame "
+    "names (integers / tuples with equal builtin hash, different types with the same text), a 10-operation alphabet "
+    "of updates that would close a loop (edge given the other way round, re-parent below an own descendant, self "
+    "edge), a 7-operation alphabet of edges with an intended scale next to one on graphs built with the default "
+    "repair_rigid and with repair_rigid=None, all from warm initial forests, plus chains of 64 edges; sampled "
+    "histories draw the name class, the repair_rigid option and whether loop-closing updates are executed; "
+    "a full observation (all ordered pairs, listings, edge-list "
     "rebuild) follows every operation. A case is one history; distinct = distinct operation sequence "
     "(names, kwargs kinds and matrix classes); non-trivial = at least one operation changed the "
     "reference forest (histories made of queries / no-ops only are counted as trivial)."
@@ -82,6 +96,12 @@ ASSUMPTIONS = [
     "from_edgelist(edges) / load(edges) on an existing graph mean update(child, parent, **attr) for every "
     "edge in order ('load transform data from an edge list into the current scene graph')",
     "an exception of type ValueError/KeyError is the accepted way to refuse a disconnected pair",
+    "an update that would close a loop may be refused with ValueError or resolved into any forest (adopted from "
+    "the raw parents / edge records); demanded of an accepted one: get(frame_to, frame_from) answers the matrix "
+    "asked for and the three laws hold on the real answers",
+    "on a graph with the default repair_rigid each single answer may lie up to 1e-5 from the product of the edges "
+    "(documented repair; the loss of an intended near-unit scale on a single edge is C04's finding); on a graph "
+    "built with repair_rigid=None it may not",
 ]
 EXHAUSTIVE = {"quick": False, "thorough": False}
 
@@ -127,7 +147,7 @@ SCALES = (0.5, 2.0, 0.8, 1.25, 10.0, 0.1, 1.001)
 
 def random_kwargs(rng):
     """(class tag, kwargs) for an update; matrices are exact identity or far from it."""
-    r = int(rng.integers(0, 15))
+    r = int(rng.integers(0, 16))
     q = rng.normal(size=4)
     q /= np.linalg.norm(q)
     axis = _unit(rng.normal(size=3))
@@ -174,6 +194,12 @@ def random_kwargs(rng):
         if r == 14:
             M[:3, int(rng.integers(3))] *= -1.0
         return ("matrix_rigid_f32" if r == 13 else "matrix_mirror_f32"), {"matrix": as_f32(M)}
+    if r == 15:
+        # an INTENDED scale next to one (thermal / calibration correction, ppm scale factor of a map
+        # projection): exact in double precision, 100x above every 1e-8 shortcut of the code, and inside
+        # the window in which get() "repairs" an answer (1e-13 < |M.M^T - I| < 1e-5)
+        e = NEAR_UNIT[int(rng.integers(len(NEAR_UNIT)))]
+        return "matrix_near_unit_similarity", {"matrix": near_unit(_rigid(axis, angle, t), e)}
     M = _rigid(axis, angle, t)
     M[:3, :3] = M[:3, :3] @ np.diag(rng.choice([0.5, 2.0, 1.25, 3.0], size=3))
     return "matrix_aniso", {"matrix": M}
@@ -181,6 +207,32 @@ def random_kwargs(rng):
 
 def as_f32(M):
     return np.asarray(M, dtype=np.float32).astype(np.float64)
+
+
+NEAR_UNIT = (4e-6, 2e-6, -4e-6)
+
+
+def near_unit(M, e):
+    """M with its linear part scaled by 1 + e."""
+    M = np.array(M, dtype=np.float64)
+    M[:3, :3] *= 1.0 + e
+    return M
+
+
+def band_kind(M):
+    """
+    None: the linear part of M is outside the window in which get() repairs an answer (or exactly
+    orthonormal); 'similarity': inside it and an exact uniform scale of a rotation (M.M^T is a multiple
+    of I to rounding: a scale somebody asked for); 'noise': inside it and not of that form
+    (single-precision rounding, accumulated error: what the repair is documented for).
+    """
+    L = np.asarray(M, dtype=np.float64)[:3, :3]
+    G = L @ L.T
+    dev = float(np.abs(G - np.eye(3)).max())
+    if not (1e-9 < dev < 1e-4):
+        return None
+    s2 = float(np.trace(G)) / 3.0
+    return "similarity" if float(np.abs(G / s2 - np.eye(3)).max()) < 1e-12 else "noise"
 
 
 def _jsonable_kw(kw):
@@ -339,11 +391,18 @@ QUERY_OPS = ("get", "getitem", "flatten", "props", "edgelist", "get_absent")
 class State:
     """Real graph + reference forest + history features used for classification."""
 
-    def __init__(self):
+    def __init__(self, base="world", repair="default", loops=False):
         from trimesh.scene.transforms import SceneGraph
 
-        self.g = SceneGraph()
-        self.m = Forest("world")
+        # repair=None: the graph is built with repair_rigid=None ("do not touch my matrices"): every
+        # answer is then the plain product - no repair window - on this graph and on its copies
+        kw = {} if repair == "default" else {"repair_rigid": repair}
+        self.g = SceneGraph(**kw) if base == "world" else SceneGraph(base_frame=base, **kw)
+        self.m = Forest(base)
+        self.exact = repair is None
+        self.names = "str"  # name class the history is executed under (run_history sets it)
+        self.loops = loops  # execute updates that would close a loop (else: not applicable, pruned)
+        self.copied = False
         self.frozen = []  # (graph, model, ghost, geom_removed) left behind by copy()
         self.ghost = set()  # absent names that were asked for as frame_to
         self.geom_removed = set()  # nodes whose geometry was dropped by remove_geometries
@@ -353,11 +412,52 @@ class State:
         self.snap = None  # edge list recorded by the last `snapshot` operation (built from the model)
 
 
+# Frame names are "any hashable" (docstring of SceneGraph.update).  A history is written over the
+# symbolic names world, a .. e and executed under one of these name classes: plain strings; integers /
+# tuples of which several have the SAME builtin hash (hash(-1) == hash(-2), hash(n) == hash(n + 2**61
+# - 1): anything that identifies a frame or an edge by hash() instead of by equality confuses them);
+# names of different type whose text is the same (1, "1", ("1",), "('1',)").
+_P61 = 2**61 - 1
+NAME_CLASSES = {
+    "str": None,
+    "int_equal_hash": {"world": -1, "a": -2, "b": -2 - _P61, "c": 7, "d": 0, "e": _P61},
+    "tuple_equal_hash": {"world": (-1, "arm"), "a": (-2, "arm"), "b": (-2 - _P61, "arm"), "c": ("tool", 0),
+                         "d": (0, "x"), "e": (_P61, "x")},
+    "same_text": {"world": "world", "a": 1, "b": "1", "c": ("1",), "d": "('1',)", "e": 1.5},
+}
+
+
+def rename_op(op, nm):
+    """The operation with its symbolic frame names replaced by those of a name class."""
+    if nm is None:
+        return op
+    o = dict(op)
+    for k in ("to", "from", "key", "node", "name"):
+        if o.get(k) is not None and o[k] in nm:
+            o[k] = nm[o[k]]
+    if o.get("edges"):
+        o["edges"] = [[nm.get(e[0], e[0]), nm.get(e[1], e[1]), e[2]] for e in o["edges"]]
+    return o
+
+
+def loop_class(m, to, frm):
+    """None, or how update(to, frm) would close a loop in the reference forest."""
+    if to == frm:
+        return "self_edge"
+    if m.parent.get(frm) == to:
+        return "reversed_edge"
+    if m.would_cycle(to, frm):
+        return "below_descendant"
+    return None
+
+
 def op_class(st, op):
     k = op["op"]
     if k in ("update", "setitem"):
         frm = op.get("from") or st.m.base
         to = op["to"] if k == "update" else op["key"]
+        if loop_class(st.m, to, frm) is not None:
+            return "update_closing_loop"
         old = st.m.parent.get(to)
         if old is None:
             return "update_new"
@@ -388,8 +488,14 @@ def apply(run, st, op, case):
             else:
                 to, frm, kw = op["key"], None, {"matrix": op["matrix"]}
             frm_eff = frm if frm is not None else m.base
-            if to == frm_eff or m.would_cycle(to, frm_eff):
-                return False
+            loop = loop_class(m, to, frm_eff)
+            if loop is not None:
+                # a self edge on a frame WITHOUT a parent is not judged (the glTF loader stores
+                # ("world", "world")); everything else that would close a loop is executed when the
+                # history asks for it, see closing_update()
+                if not st.loops or (loop == "self_edge" and to not in m.parent):
+                    return False
+                return closing_update(run, st, op, case, loop, to, frm, frm_eff, kw, k)
             old_parent = m.parent.get(to)
             old_matrix = m.matrix.get(to)
             # what the model stores is fixed NOW: the library gets float64 buffers that belong to
@@ -488,6 +594,7 @@ def apply(run, st, op, case):
             st.frozen.append((g, m.copy(), set(st.ghost), set(st.geom_removed)))
             st.g = g2
             st.m = m.copy()
+            st.copied = True
         elif k == "snapshot":
             # what a caller keeps when it saves the state of the graph as an edge list; taken from
             # the reference forest (the real export is judged by every sweep), nothing is executed
@@ -556,6 +663,149 @@ class _Abort(Exception):
     pass
 
 
+class _Stop(Exception):
+    """The history cannot be followed any further by the reference forest (nothing is wrong)."""
+
+
+def closing_update(run, st, op, case, loop, to, frm, frm_eff, kw, k):
+    """
+    update(to, frm, ...) where `to` is `frm` itself (and has a parent) or an ancestor of `frm`: the
+    edge as given would close a loop.  The statement does not say how such a call is resolved, so
+    nothing is prescribed: it may be refused (ValueError; then nothing may have changed - the sweeps
+    that follow compare with the unchanged forest), or accepted in any way that leaves a forest (the
+    existing edge stored the other way round, the tree re-rooted ...) which the reference model then
+    ADOPTS from the raw records.  What the statement does demand of an accepted update: the
+    transform asked for is the one get(to, frm) answers now, and the three laws hold on the real
+    answers between all frames.  A self edge can only be honoured when it asks for the identity, and
+    then changes nothing: the frame keeps its parent.
+    """
+    g, m = st.g, st.m
+    M_call = kwargs_matrix(kw)
+    for x in _BUFFER_KEYS:
+        if isinstance(kw.get(x), np.ndarray):
+            kw[x] = np.array(kw[x], dtype=np.float64)
+    refused = False
+    try:
+        if k == "update":
+            if frm is None:
+                g.update(to, **kw)
+            else:
+                g.update(to, frm, **kw)
+        else:
+            g[to] = kw["matrix"]
+    except ValueError:
+        refused = True
+    except Exception as e:
+        run.violation("op=update_closing_loop class=%s sym=exception:%s" % (loop, type(e).__name__),
+                      "an update that would close a loop raised something else than ValueError",
+                      dict(case, error=repr(e)[:200]))
+        raise _Abort()
+    for x in _BUFFER_KEYS:
+        if isinstance(kw.get(x), np.ndarray):
+            try:
+                kw[x] += 0.37  # the caller re-uses its buffer
+            except ValueError:
+                pass
+    if refused:
+        run.count("loop_closing_update_refused:" + loop)
+        return True
+    run.count("loop_closing_update_accepted:" + loop)
+    names = list(m.nodes)
+    real = {}
+    with plain_reads():
+        for a in names:
+            for b in names:
+                real[(a, b)] = observe_get(run, g, b, a)
+    sym, detail = None, None
+    obs = real.get((frm_eff, to)) or observe_get(run, g, to, frm_eff)
+    # (inside the repair window the answer is judged at its width here, also on a graph built with
+    # repair_rigid=None: whether THAT option is honoured is the business of the sweeps)
+    tol = 3e-5 if band_kind(M_call) is not None else TOL
+    if obs[0] != "ok" or not within(M_call, obs[1], tol):
+        sym, detail = "update_not_visible", {"asked": M_call, "answered": obs[1] if obs[0] == "ok" else obs}
+    if sym is None and loop == "self_edge" and g.transforms.parents.get(to) != m.parent.get(to):
+        # T(x, x) = I was "set" to the identity: nothing to do - but the edge from the parent is gone
+        sym, detail = "parent_edge_dropped", {"parent_before": m.parent.get(to)}
+    if sym is None:
+        ok = {p2: v for p2, v in real.items() if v[0] == "ok"}
+        # (answers that disagree within the repair window - edges with a scale next to one - are the
+        # business of the sweeps, not of this update)
+        mats = [M for M in m.matrix.values() if M is not None] + [M_call]
+        tol_l = 1e-4 if any(band_kind(M) is not None for M in mats) else 10 * TOL
+        failed, n = check_laws(names, ok, tol_l)
+        run.count("law_checks", n)
+        if failed:
+            law, trip = failed[0]
+            sym = "laws_broken"  # which one depends on the shape of the loop: in the witness, not in the key
+            detail = {"law": law, "frames": trip, "answers": {repr(p2): ok[p2][1] for p2 in
+                                                              [(trip[0], trip[-1]), (trip[-1], trip[0])] if p2 in ok}}
+    if sym is None:
+        err = [(p2, v) for p2, v in real.items() if v[0] == "error"]
+        if err:
+            sym, detail = "exception:%s" % err[0][1][1], {"pair": list(err[0][0])}
+    if sym is not None:
+        run.violation("op=update_closing_loop class=%s sym=%s" % (loop, sym),
+                      "an update naming an ancestor of the parent frame (or the frame itself) as the child was "
+                      "accepted and the answers of the graph no longer satisfy the statement",
+                      dict(case, frame_to=to, frame_from=frm_eff, raw_parents=repr(dict(g.transforms.parents))[:300],
+                           **detail))
+        raise _Abort()
+    if loop == "self_edge":
+        run.count("loop_closing_update_accepted_as_no_op:self_edge")
+        return True
+    adopted = adopt_forest(g, m)
+    if adopted is None:
+        # a loop whose matrices happen to agree: no law is broken yet, the model cannot follow
+        run.count("loop_closing_update_accepted_as_consistent_loop")
+        raise _Stop()
+    run.count("loop_closing_update_accepted_as_forest:" + loop)
+    st.m = adopted
+    st.changed += 1
+    return True
+
+
+def adopt_forest(g, m):
+    """The raw records of the graph as a reference forest; None when they are not a forest."""
+    tr = g.transforms
+    parents = {c: p for c, p in tr.parents.items() if c != p}
+    for n in parents:
+        x = n
+        for _ in range(len(parents) + 1):
+            x = parents.get(x)
+            if x is None:
+                break
+        else:
+            return None
+    f = Forest(m.base)
+    f.nodes = dict.fromkeys(tr.node_data.keys(), True)
+    for c, p in parents.items():
+        rec = tr.edge_data.get((p, c))
+        if rec is None:
+            return None
+        f.parent[c] = p
+        f.matrix[c] = np.array(rec.get("matrix", np.eye(4)), dtype=np.float64)
+    f.geometry = {n: d["geometry"] for n, d in tr.node_data.items() if "geometry" in d}
+    f.former = {e for e in m.former if parents.get(e[1]) != e[0] and e[0] in f.nodes and e[1] in f.nodes}
+    f.reparented_onto_former = m.reparented_onto_former
+    return f
+
+
+class _Suffixed:
+    """`run` whose violation keys carry the option / input class a history was executed under."""
+
+    def __init__(self, run, suffix):
+        self._run, self._suffix = run, suffix
+
+    def __getattr__(self, name):
+        return getattr(self._run, name)
+
+    def violation(self, key, what, case=None):
+        for part in self._suffix.split():
+            if part.split("=", 1)[1] not in key:
+                key = key + " " + part
+        self._run.violation(key, what, case)
+
+
 _BUFFER_KEYS = ("matrix", "quaternion", "axis", "translation")
 
 
@@ -575,9 +825,9 @@ def model_signature(m):
     return (
         m.base,
         tuple(m.nodes),
-        tuple(sorted(m.parent.items())),
-        tuple(sorted(m.geometry.items())),
-        tuple((c, np.asarray(M, dtype=np.float64).tobytes()) for c, M in sorted(m.matrix.items())),
+        tuple(sorted(m.parent.items(), key=repr)),
+        tuple(sorted(m.geometry.items(), key=repr)),
+        tuple((c, np.asarray(M, dtype=np.float64).tobytes()) for c, M in sorted(m.matrix.items(), key=lambda cm: repr(cm[0]))),
     )
 
 
@@ -676,12 +926,68 @@ def observe_get(run, g, to, frm, default_from=False, item=False):
     return ("ok", M, geo, served)
 
 
-def judge_pair(m, frm, to, obs):
-    """-> None | (symptom, expected)"""
-    try:
-        E = m.T(frm, to)
-    except Disconnected:
-        E = None
+def within(E, R, tol):
+    R = np.asarray(R, dtype=np.float64)
+    if R.shape != E.shape or not np.isfinite(R).all():
+        return False
+    return bool(float(np.abs(E - R).max()) <= tol * max(1.0, float(np.abs(E).max())))
+
+
+def law_tolerance(exact, matrices):
+    """
+    Width at which the three laws are judged on the real answers.  Edges of single-precision accuracy
+    ('noise') put get() into its repair window on a graph with the default repair_rigid: each answer
+    may then be repaired or not, up to 1e-5 from the raw product.  Everything else - and every graph
+    built with repair_rigid=None - is judged at the tolerance of the monitor.
+    """
+    if not exact and any(band_kind(M) == "noise" for M in matrices if M is not None):
+        return 1e-4
+    return 10 * TOL
+
+
+class ModelTable:
+    """
+    The expected answers of ONE state of the reference forest, memoised for the duration of a sweep
+    (the same pair is judged for get, graph[node], to_flattened and the rebuilt graph): W(n) of every
+    frame once, W(a)^-1 once per frame, T(a,b) = W(a)^-1 . W(b) - the very operations of Forest.T.
+    """
+
+    def __init__(self, m):
+        self.m = m
+        self.info = {n: m.root_world(n) for n in m.nodes}
+        self.inv = {}
+        self.memo = {}
+
+    def expected(self, frm, to):
+        """(E or None when not connected / absent, E is inside the repair window)"""
+        key = (frm, to)
+        hit = self.memo.get(key)
+        if hit is not None:
+            return hit
+        a, b = self.info.get(frm), self.info.get(to)
+        if a is None or b is None or a[0] != b[0]:
+            res = (None, False)
+        elif frm == to:
+            res = (np.eye(4), False)
+        else:
+            if frm not in self.inv:
+                self.inv[frm] = np.linalg.inv(a[1])
+            E = self.inv[frm] @ b[1]
+            res = (E, in_repair_band(E))
+        self.memo[key] = res
+        return res
+
+
+def judge_pair(m, frm, to, obs, exact=False, tab=None):
+    """-> None | (symptom, expected); exact: the graph was built with repair_rigid=None"""
+    if tab is not None:
+        E, band = tab.expected(frm, to)
+    else:
+        try:
+            E = m.T(frm, to)
+        except Disconnected:
+            E = None
+        band = E is not None and in_repair_band(E)
     if obs[0] == "error":
         return ("exception:%s" % obs[1], E)
     if E is None:
@@ -692,7 +998,7 @@ def judge_pair(m, frm, to, obs):
         return None
     if obs[0] == "raise":
         return ("raised_connected", E)
-    if in_repair_band(E):
+    if band and not exact:
         # fix_rigid (repair_rigid=1e-5) may replace the product by the nearest orthogonal matrix,
         # which it documents to lie within 1e-5 of it: the answer is still judged, at that width
         # (a mirrored product must stay mirrored, a repaired one must stay next to the product)
@@ -720,9 +1026,20 @@ def report_pair(run, st, m, query, frm, to, obs, verdict, case, extra=""):
         # a dead edge record can give the forest the very content (hence hash) of an earlier state,
         # so under `former_edge=alive` a stale SceneGraph._cache entry may come back for any pair
         feats.append("served=%s" % ("cache" if obs[3] else "computed"))
+    if getattr(st, "names", "str") != "str":
+        # histories under another class of frame names: the class is the structural feature (the same
+        # histories run under plain strings with the detailed features)
+        feats = ["names=%s" % st.names] + (["served=%s" % ("cache" if obs[3] else "computed")] if obs[0] == "ok" else [])
+    if getattr(st, "exact", False) and sym == "wrong_matrix" and obs[0] == "ok" and E is not None \
+            and in_repair_band(E) and within(E, obs[1], 3e-5):
+        # repair_rigid=None was asked for and the answer is the product moved by less than the repair window
+        sym = "repaired_although_repair_rigid_None"
+        feats = ["hist=%s" % ("copy" if st.copied else "no_copy")]
     key = "query=%s sym=%s %s%s" % (query, sym, " ".join(feats), extra)
     what = {
         "wrong_matrix": "transform differs from the product of the current edges along the path",
+        "repaired_although_repair_rigid_None": "the graph was built with repair_rigid=None but the answer is a repaired "
+                                               "matrix, not the product of the current edges",
         "wrong_geometry": "geometry returned for the frame differs from the one currently attached",
         "returned_disconnected": "a transform was returned for two frames that are not connected",
         "raised_connected": "query raised although the frames are connected",
@@ -745,6 +1062,7 @@ def _sweep(run, st, g, m, ghost, geom_removed, order, case, where="main", absent
     run.count("sweeps")
     names = list(m.nodes)
     view = _View(st, ghost, geom_removed)
+    view.tab = tab = ModelTable(m)
     bad = 0
     real = {}
 
@@ -754,11 +1072,11 @@ def _sweep(run, st, g, m, ghost, geom_removed, order, case, where="main", absent
         if order % 2:
             pairs.reverse()
         if order % 3 == 1:
-            pairs.sort(key=lambda ab: (ab[1], ab[0]))
+            pairs.sort(key=lambda ab: (repr(ab[1]), repr(ab[0])))
         for frm, to in pairs:
             obs = observe_get(run, g, to, frm)
             real[(frm, to)] = obs
-            v = judge_pair(m, frm, to, obs)
+            v = judge_pair(m, frm, to, obs, view.exact, tab)
             if v is not None:
                 bad += 1
                 report_pair(run, view, m, "get", frm, to, obs, v, case)
@@ -767,7 +1085,7 @@ def _sweep(run, st, g, m, ghost, geom_removed, order, case, where="main", absent
         nonlocal bad
         for to in names:
             obs = observe_get(run, g, to, m.base, item=True)
-            v = judge_pair(m, m.base, to, obs)
+            v = judge_pair(m, m.base, to, obs, view.exact, tab)
             if v is None:
                 continue
             bad += 1
@@ -812,7 +1130,7 @@ def _sweep(run, st, g, m, ghost, geom_removed, order, case, where="main", absent
                                   "to_flattened omits a frame connected to the base frame", dict(case, frame=n))
                 continue
             obs = ("ok", np.array(flat[n]["transform"], dtype=np.float64), flat[n]["geometry"], False)
-            v = judge_pair(m, base, n, obs)
+            v = judge_pair(m, base, n, obs, view.exact, tab)
             if v is None:
                 continue
             bad += 1
@@ -855,13 +1173,13 @@ def _sweep(run, st, g, m, ghost, geom_removed, order, case, where="main", absent
             bad += 1
             run.violation("query=nodes_geometry sym=wrong_set %s" % explain(view, m, pairwise=False),
                           "nodes_geometry differs from the frames that currently carry geometry",
-                          dict(case, observed=sorted(rng_), expected=sorted(m.nodes_geometry())))
+                          dict(case, observed=sorted(rng_, key=repr), expected=sorted(m.nodes_geometry(), key=repr)))
         if rgn != m.geometry_nodes():
             bad += 1
             run.violation("query=geometry_nodes sym=wrong_map %s" % explain(view, m, pairwise=False),
                           "geometry_nodes differs from the current geometry -> frames map",
-                          dict(case, observed={k: sorted(v) for k, v in rgn.items()},
-                               expected={k: sorted(v) for k, v in m.geometry_nodes().items()}))
+                          dict(case, observed={k: sorted(v, key=repr) for k, v in rgn.items()},
+                               expected={k: sorted(v, key=repr) for k, v in m.geometry_nodes().items()}))
         if not all(cont.values()):
             bad += 1
             run.violation("query=contains sym=false_for_existing", "`frame in graph` is False for an existing frame",
@@ -883,23 +1201,39 @@ def _sweep(run, st, g, m, ghost, geom_removed, order, case, where="main", absent
     ok_pairs = {k2: v for k2, v in real.items() if v[0] == "ok"}
     # edges of single-precision accuracy put get() into its repair band: each answer may then sit
     # up to 1e-5 from the raw product, and the laws are judged at that width
-    band = any(in_repair_band(np.asarray(M)) for M in m.matrix.values() if M is not None)
-    law_bad = check_laws(names, ok_pairs, 1e-4 if band else 10 * TOL)
+    # (an edge that is an exact similarity with a scale next to one is NOT noise: each answer is compared
+    # with the model at the width of the repair window, but the answers must agree with each other)
+    law_bad = check_laws(names, ok_pairs, law_tolerance(view.exact, m.matrix.values()))
     run.count("law_checks", law_bad[1])
     if law_bad[0]:
         if bad:
             run.count("law_failures_explained_by_query_mismatch", len(law_bad[0]))
         else:
-            for law, trip in law_bad[0][:2]:
-                run.violation("law=%s %s" % (law, explain(view, m, pairwise=False)),
-                              "the real answers violate a law of the statement although each matches the model",
-                              dict(case, frames=trip))
+            near = (not view.exact) and any(band_kind(M) == "similarity" for M in m.matrix.values() if M is not None)
+            if near and not check_laws(names, ok_pairs, 1e-4)[0]:
+                # the answers disagree by less than the repair window: some were "repaired" (an intended
+                # scale next to one dropped), others - products that left the window - were not
+                for law in sorted({law for law, _ in law_bad[0]}):
+                    trip = next(t for l2, t in law_bad[0] if l2 == law)
+                    run.violation("law=%s edges=near_unit_similarity sym=answers_disagree_within_repair_window" % law,
+                                  "T(a,c) != T(a,b).T(b,c) on the real answers: the rigid repair acted on some "
+                                  "answers and not on others",
+                                  dict(case, frames=trip,
+                                       answers={repr(k3): ok_pairs[k3][1] for k3 in
+                                                [(trip[0], trip[1]), (trip[1], trip[-1]), (trip[0], trip[-1])]
+                                                if k3 in ok_pairs}))
+            else:
+                opt = " option=repair_rigid_None" if view.exact else ""
+                for law, trip in law_bad[0][:2]:
+                    run.violation("law=%s %s%s" % (law, explain(view, m, pairwise=False), opt),
+                                  "the real answers violate a law of the statement although each matches the model",
+                                  dict(case, frames=trip))
             bad += 1
 
     # frames that do not exist: asked last so that the ghost they may leave cannot disturb the above
     for frm, to in ((m.base, ABSENT), (ABSENT, names[0] if names else m.base), (ABSENT, ABSENT)) if absent else ():
         obs = observe_get(run, g, to, frm)
-        v = judge_pair(m, frm, to, obs)
+        v = judge_pair(m, frm, to, obs, view.exact, tab)
         if v is not None:
             bad += 1
             report_pair(run, view, m, "get", frm, to, obs, v, case, extra=" frame=absent")
@@ -911,6 +1245,8 @@ class _View:
 
     def __init__(self, st, ghost, geom_removed):
         self.ghost, self.geom_removed = ghost, geom_removed
+        self.exact, self.copied, self.names = st.exact, st.copied, st.names
+        self.tab = None  # ModelTable of the sweep this view belongs to
 
 
 def _same_obs(a, b):
@@ -1028,7 +1364,7 @@ def check_edgelist(run, view, g, m, case):
         for frm in names:
             for to in names:
                 obs = observe_get(run, g2, to, frm)
-                v = judge_pair(m, frm, to, obs)
+                v = judge_pair(m, frm, to, obs, False, getattr(view, "tab", None))
                 if v is None:
                     continue
                 bad += 1
@@ -1068,7 +1404,7 @@ def explicit_query(run, st, op, case):
             frm = frm if frm is not None else m.base
         if to not in m.nodes:
             st.ghost.add(to)
-        v = judge_pair(m, frm, to, obs)
+        v = judge_pair(m, frm, to, obs, view.exact)
         if v is not None:
             report_pair(run, view, m, "get", frm, to, obs, v, case,
                         extra=" frame=absent" if (to not in m.nodes or frm not in m.nodes) else "")
@@ -1090,15 +1426,22 @@ def explicit_query(run, st, op, case):
 # running histories
 
 
-def run_history(run, ops, order, sweep_every, tag, prefix=None):
+def run_history(run, ops, order, sweep_every, tag, prefix=None, names="str", repair="default", loops=False):
     """
     Execute one history; returns (state, applied ops, mismatches) or None when pruned.
     prefix = (name, warm): a fixed initial forest built first, optionally followed by a full
     observation of the real graph (every cache warm) before the history proper starts.
+    names  = class of frame names the (symbolic) history is executed under, see NAME_CLASSES;
+    repair = "default" | None: the repair_rigid option the graph is built with;
+    loops  = updates that would close a loop are executed (closing_update) instead of pruned.
     """
-    st = State()
+    nm = NAME_CLASSES[names]
+    st = State(base=(nm["world"] if nm else "world"), repair=repair, loops=loops)
+    st.names = names
     case = {"history": [_jsonable_op(o) for o in ops], "order": order, "sweep_every": bool(sweep_every),
-            "prefix": list(prefix) if prefix else None}
+            "prefix": list(prefix) if prefix else None, "names": names,
+            "repair_rigid": "default" if repair == "default" else repair, "loops": bool(loops)}
+    ops = [rename_op(o, nm) for o in ops]
     CTX["case"] = case
     applied = 0
     bad = 0
@@ -1106,7 +1449,7 @@ def run_history(run, ops, order, sweep_every, tag, prefix=None):
         if prefix:
             case["step"] = -1
             for op in PREFIXES[prefix[0]]():
-                apply(run, st, op, case)
+                apply(run, st, rename_op(op, nm), case)
             st.snap = model_edgelist(st.m)  # "the state as it was saved", for `restore`
             if prefix[1]:
                 bad += sweep(run, st, st.g, st.m, st.ghost, st.geom_removed, order + 2, case, "warm", absent=False)
@@ -1136,6 +1479,8 @@ def run_history(run, ops, order, sweep_every, tag, prefix=None):
             bad += n0
     except _Abort:
         bad += 1
+    except _Stop:
+        pass
     finally:
         CTX["case"] = None
     return st, applied, bad
@@ -1235,7 +1580,12 @@ def _prefix_tree():
     return [A[0], A[3], A[4]]  # world -> a -> c, world -> b
 
 
-PREFIXES = {"chain": _prefix_chain, "tree": _prefix_tree}
+def _prefix_near_chain():
+    N = near_alphabet()
+    return [N[0], N[1], N[2]]  # world -> a -> b -> c(g1), every edge an exact similarity with a scale next to one
+
+
+PREFIXES = {"chain": _prefix_chain, "tree": _prefix_tree, "near_chain": _prefix_near_chain}
 
 
 def _edge(u, v, M, geometry=None):
@@ -1281,6 +1631,121 @@ def load_alphabet():
         # without an initial forest there is nothing to restore and the history is pruned)
         {"op": "restore", "via": "load"},
     ]
+
+
+def names_alphabet():
+    """
+    Operations run under every class of frame names: the chain, the two re-parents that keep the local
+    transform and the geometry byte-identical (only the NAME of the parent changes), a removal, a
+    base-frame change, two queries.
+    """
+    A = alphabet()
+    return [A[0], A[1], A[2], A[10], A[11], A[13], A[15], A[19], A[20]]
+
+
+def loop_alphabet():
+    """
+    Updates that name an ancestor of the parent frame - or the frame itself - as the child (the same
+    edge given the other way round, a re-parent below an own descendant, a self edge on a frame that
+    has a parent), mixed with ordinary edits and queries; run from the initial forests, where every
+    one of them meets a structure in which it closes a loop.
+    """
+    A = alphabet()
+    M1, M2, M3, M4, M5 = fixed_matrices()
+    return [
+        {"op": "update", "to": "world", "from": "a", "kw": {"matrix": M4}, "cls": "M4_world_seen_from_a"},
+        {"op": "update", "to": "a", "from": "b", "kw": {"matrix": M3}, "cls": "M3_a_under_b"},
+        A[6],  # a under c, similarity
+        {"op": "update", "to": "a", "from": "a", "kw": {"matrix": M3}, "cls": "M3_self_edge"},
+        {"op": "update", "to": "b", "from": "b", "kw": {"matrix": np.eye(4)}, "cls": "identity_self_edge"},
+        A[1], A[4], A[13], A[19], A[20],
+    ]
+
+
+def near_alphabet():
+    """
+    Edges that are exact similarities with an INTENDED scale next to one (1 + 4e-6, 1 + 2e-6): every
+    single edge lies inside the window in which get() repairs an answer, products of two or three leave
+    it.  Run on a graph with the default repair_rigid and on one built with repair_rigid=None (which
+    `copy` has to carry over).
+    """
+    M1, M2, M3, M4, M5 = fixed_matrices()
+    S = np.eye(4)
+    S[:3, 3] = [0.5, 0.0, -1.0]
+    return [
+        {"op": "update", "to": "a", "from": "world", "kw": {"matrix": near_unit(M1, 4e-6)}, "cls": "M1_near_unit"},
+        {"op": "update", "to": "b", "from": "a", "kw": {"matrix": near_unit(M3, 4e-6)}, "cls": "M3_near_unit"},
+        {"op": "update", "to": "c", "from": "b", "kw": {"matrix": near_unit(M4, 2e-6), "geometry": "g1"}, "cls": "M4_near_unit"},
+        {"op": "update", "to": "c", "from": "a", "kw": {"matrix": near_unit(M4, 4e-6)}, "cls": "M4_near_unit_under_a"},
+        {"op": "update", "to": "b", "from": "world", "kw": {"matrix": near_unit(S, 4e-6)}, "cls": "pure_scale_near_unit"},
+        {"op": "copy"},
+        {"op": "get", "to": "c", "from": None},
+    ]
+
+
+def _chain_edge(i, e, kind):
+    M = _rigid(_unit([1.0, float(i % 3), float((i * 7) % 5 - 2)]), 0.3 + 0.1 * (i % 7), [float(i % 4), -float(i % 3), 0.5])
+    return as_f32(M) if kind == "rigid_f32" else near_unit(M, e)
+
+
+def deep_chain(run, k, e, kind, repair):
+    """
+    One history: a chain world - n1 - ... - nk of k edges of one kind, then the direct answer
+    T(world, nk), the answers over every single edge, and three triples.  Judged: each answer against
+    the reference forest; T(world, nk) against the product of the answers over its edges (the
+    composition law applied along the path) at 1e-4 - ten repair windows - on a default graph.
+    """
+    from trimesh.scene.transforms import SceneGraph
+
+    exact = repair is None
+    case = {"deep_chain": {"k": k, "e": e, "kind": kind, "repair": repair}}
+    if exact:
+        run = _Suffixed(run, " option=repair_rigid_None")
+    g = SceneGraph() if not exact else SceneGraph(repair_rigid=None)
+    m = Forest("world")
+    names = ["world"] + ["n%d" % i for i in range(1, k + 1)]
+    for i in range(k):
+        M = _chain_edge(i, e, kind)
+        g.update(names[i + 1], names[i], matrix=M.copy())
+        m.update(names[i + 1], names[i], M)
+    mid = names[k // 2]
+    ask = [(names[0], names[-1]), (names[-1], names[0]), (names[0], mid), (mid, names[-1]),
+           (names[1], names[-1]), (names[0], names[-2])] + list(zip(names[:-1], names[1:]))
+    real, bad = {}, 0
+    for frm, to in ask:
+        obs = real[(frm, to)] = observe_get(run, g, to, frm)
+        v = judge_pair(m, frm, to, obs, exact)
+        if v is not None:
+            bad += 1
+            run.violation("query=get sym=%s depth=deep edges=%s path=%s" % (v[0], kind, "edge" if (frm, to) in ask[6:] else "long"),
+                          "transform over a deep chain differs from the product of the current edges",
+                          dict(case, frame_from=frm, frame_to=to, observed=obs[1] if obs[0] == "ok" else obs, expected=v[1]))
+    ok = {p2: v for p2, v in real.items() if v[0] == "ok"}
+    if not bad and len(ok) == len(real):
+        D = ok[(names[0], names[-1])][1]
+        P = np.eye(4)
+        for frm, to in zip(names[:-1], names[1:]):
+            P = P @ ok[(frm, to)][1]
+        run.count("law_checks")
+        if not within(D, P, 10 * TOL if exact else 1e-4):
+            bad += 1
+            run.violation("law=compose_along_path edges=%s depth=deep sym=product_of_edge_answers_differs_from_direct_answer" % kind,
+                          "T(world, nk) differs from T(world,n1).T(n1,n2)...T(nk-1,nk) by more than ten repair windows",
+                          dict(case, direct=D, stepwise=P))
+        five = [names[0], names[1], mid, names[-2], names[-1]]
+        failed, n = check_laws(five, ok,
+                               law_tolerance(exact, [_chain_edge(0, e, kind)]))
+        run.count("law_checks", n)
+        if failed and not bad:
+            soft = kind == "near_unit_similarity" and not exact and not check_laws(five, ok, 1e-4)[0]
+            for law in sorted({law for law, _ in failed}):
+                run.violation(("law=%s edges=near_unit_similarity sym=answers_disagree_within_repair_window" % law) if soft
+                              else "law=%s depth=deep edges=%s" % (law, kind),
+                              "the real answers over a deep chain violate a law of the statement",
+                              dict(case, frames=next(t for l2, t in failed if l2 == law)))
+            bad += 1
+    run.case("deep_chain:%s" % kind, k, e, repr(repair))
+    return bad
 
 
 NAMES = ["world", "a", "b", "c", "d", "e"]
@@ -1349,10 +1814,10 @@ def random_history(rng, pyrng, n):
     return ops
 
 
-def record(run, tag, ops, res, prefix=None):
+def record(run, tag, ops, res, prefix=None, variant=None):
     st, applied, bad = res
     nt = st.changed > (3 if prefix else 0)
-    run.case(tag, tuple(op_digest(o) for o in ops), prefix, nontrivial=nt,
+    run.case(tag, tuple(op_digest(o) for o in ops), prefix, *([variant] if variant else []), nontrivial=nt,
              sample={"history": [_jsonable_op(o) for o in ops]} if nt and run.evaluations % 1499 == 0 else None)
     if st.query_before_mutation:
         run.count("histories_with_query_before_mutation")
@@ -1410,6 +1875,75 @@ def _workload(run):
                 tag = "len%d" % n if prefix is None else "%s_%s+len%d" % (prefix[0], "warm" if prefix[1] else "cold", n)
                 record(run, "enum_load:" + tag, ops, res, prefix)
     run.note("load_enumeration_seconds", round(run.elapsed(), 1))
+    # ---- classes added in round 4 (cheap, seed independent, run before the big enumeration)
+    t0 = run.elapsed()
+    # (a) other classes of frame names
+    NA = names_alphabet()
+    run.note("names_alphabet", [str(op_digest(o)) for o in NA])
+    for names in ("int_equal_hash", "tuple_equal_hash", "same_text"):
+        for prefix, lens in ((("chain", True), (1, 2)), (("tree", True), (1,)), (None, (1,))):
+            for n in lens:
+                for combo in itertools.product(range(len(NA)), repeat=n):
+                    idx += 1
+                    if not run.mine(idx):
+                        continue
+                    if run.out_of_time(0.5):
+                        done_enum = False
+                        break
+                    ops = [NA[i] for i in combo]
+                    res = run_history(run, ops, idx, False, "enum", prefix=prefix, names=names)
+                    if res is None:
+                        run.count("enumerated_histories_pruned_not_applicable")
+                        continue
+                    run.count("histories_under_name_class:" + names)
+                    record(run, "enum_names:%s" % names, ops, res, prefix, variant=names)
+    # (b) updates that would close a loop
+    LA = loop_alphabet()
+    run.note("loop_alphabet", [str(op_digest(o)) for o in LA])
+    for prefix, lens in ((("chain", True), (1, 2)), (("tree", True), (1,)), (("chain", False), (1,))):
+        for n in lens:
+            for combo in itertools.product(range(len(LA)), repeat=n):
+                idx += 1
+                if not run.mine(idx):
+                    continue
+                if run.out_of_time(0.5):
+                    done_enum = False
+                    break
+                ops = [LA[i] for i in combo]
+                res = run_history(run, ops, idx, False, "enum", prefix=prefix, loops=True)
+                if res is None:
+                    run.count("enumerated_histories_pruned_not_applicable")
+                    continue
+                record(run, "enum_loops:%s_%s+len%d" % (prefix[0], "warm" if prefix[1] else "cold", n), ops, res, prefix,
+                       variant="loops")
+    # (c) intended scales next to one, default repair_rigid and repair_rigid=None
+    NU = near_alphabet()
+    run.note("near_unit_alphabet", [str(op_digest(o)) for o in NU])
+    for repair in ("default", None):
+        for prefix, lens in ((None, (1, 2)), (("near_chain", True), (1, 2))):
+            for n in lens:
+                for combo in itertools.product(range(len(NU)), repeat=n):
+                    idx += 1
+                    if not run.mine(idx):
+                        continue
+                    if run.out_of_time(0.5):
+                        done_enum = False
+                        break
+                    ops = [NU[i] for i in combo]
+                    res = run_history(run, ops, idx, False, "enum", prefix=prefix, repair=repair)
+                    if res is None:
+                        run.count("enumerated_histories_pruned_not_applicable")
+                        continue
+                    record(run, "enum_near_unit:repair_rigid=%s" % repair, ops, res, prefix, variant=repr(repair))
+    # (d) deep chains
+    j = 0
+    # (64 edges: the library's multi_dot spends O(n^3) on the order of a chain product)
+    for kind, k, e, repair in (("near_unit_similarity", 64, 4e-6, "default"), ("near_unit_similarity", 64, 4e-6, None),
+                               ("rigid_f32", 64, 0.0, "default")):
+        j += 1
+        if run.mine(j):
+            deep_chain(run, k, e, kind, repair)
+    run.note("round4_enumeration_seconds", round(run.elapsed() - t0, 1))
     # the enumeration is the seed-independent core: it may use nearly the whole budget on a slow
     # machine (the sampled histories then get what is left); not finishing it is inconclusive
     frac = 0.93 if run.tier == "quick" else 0.5
@@ -1485,17 +2019,31 @@ def _workload(run):
         k += 1
         n = int(run.rng.integers(4, maxlen + 1))
         ops = random_history(run.rng, run.pyrng, n)
-        res = run_history(run, ops, k, True, "random")
-        record(run, "random:len%d" % n, ops, res)
+        r = run.pyrng.random()
+        names = "str" if r < 0.7 else ("int_equal_hash" if r < 0.8 else ("tuple_equal_hash" if r < 0.9 else "same_text"))
+        repair = None if run.pyrng.random() < 0.15 else "default"
+        loops = run.pyrng.random() < 0.5
+        res = run_history(run, ops, k, True, "random", names=names, repair=repair, loops=loops)
+        if names != "str":
+            run.count("histories_under_name_class:" + names)
+        if repair is None:
+            run.count("histories_on_graph_with_repair_rigid_None")
+        record(run, "random:len%d" % n, ops, res, variant=(names, repr(repair), loops))
 
 
 def replay(run, case):
     CTX["run"] = run
     uninstall = install_contracts(run)
     try:
+        if case.get("deep_chain"):
+            deep_chain(run, **case["deep_chain"])
+            return
         ops = [_op_from_json(o) for o in case["history"]]
         prefix = tuple(case["prefix"]) if case.get("prefix") else None
-        res = run_history(run, ops, int(case.get("order", 0)), bool(case.get("sweep_every", True)), "replay", prefix=prefix)
+        res = run_history(run, ops, int(case.get("order", 0)), bool(case.get("sweep_every", True)), "replay", prefix=prefix,
+                          names=case.get("names") or "str",
+                          repair=None if case.get("repair_rigid", "default") is None else "default",
+                          loops=bool(case.get("loops")))
         if res is not None:
             run.case("replay", tuple(op_digest(o) for o in ops))
     finally:
